@@ -417,6 +417,12 @@ class HPar(Base):
                     a, b = z3.Int(f"{fld}{i}_lo"), z3.Int(f"{fld}{i}_hi")
                     eng.add(lo <= a, a < b, b <= fe)
                     setattr(c.metadata, fld, TStr.sub(a, b, self.n))
+                    if fld == "year" and eng.choose([z3.Bool(f"numyear{i}"), z3.Not(z3.Bool(f"numyear{i}"))]) == 0:
+                        # pre-state invariant (C18, established by add_post_citation / add_defendant): a numeric
+                        # year is the value of the textual year and lies in the accepted range
+                        yv = self.stub_int(c.metadata.year)
+                        eng.add(lift_int(yv) >= 1600, lift_int(yv) <= self.hi)
+                        c.year = yv
             cs.append(c)
             self.sym.append((s, e, fs, fe))
         eng.add(self.sym[0][1] <= self.sym[1][0])
@@ -442,7 +448,10 @@ class HPar(Base):
                 own = v.inside(lo1, fe1)
                 joint = z3.And(same_start, v.inside(z3.If(lo0 < lo1, lo0, lo1), z3.If(fe0 > fe1, fe0, fe1)))
                 conds.append(z3.Or(own, joint))
-        return [self.check("C17:par:metadata_inside_own_or_joint_extent_of_citations_starting_together", z3.And(*conds) if conds else z3.BoolVal(True), self.witness)]
+        return [
+            self.check("C17:par:metadata_inside_own_or_joint_extent_of_citations_starting_together", z3.And(*conds) if conds else z3.BoolVal(True), self.witness),
+            self.check("C18:par:numeric_year_in_range_and_equals_text", self.year_clause(b), self.witness),
+        ]
 
 
 class HMono(Base):
@@ -980,7 +989,7 @@ def fold_into_c03(rep):
 
 def fold_into_c18(rep, findings_out):
     """C18 clause (b): year-assignment sites."""
-    findings, W = explore_parts(rep, "C18", parts=["post", "defn", "law", "journal"])
+    findings, W = explore_parts(rep, "C18", parts=["post", "defn", "law", "journal", "par"])
     settle(rep, "C18", findings, ["C18:"])
 
 
